@@ -164,3 +164,45 @@ pub fn content_length(_a: &Value) -> Value {
     json!({"scenario":"c19_content_length","observed":{"deviations":bad.iter().take(4).collect::<Vec<_>>()},"violation":violation,
            "why": if violation {"the same body bytes get a different answer depending on the Content-Length header"} else {""}})
 }
+
+/// The GET-proxy middleware rewrites `GET <configured path>` only: every other method on that path, and everything on other paths, reaches the inner service as it came.
+pub fn proxy_get(_a: &Value) -> Value {
+    use jsonrpsee_server::middleware::http::ProxyGetRequestLayer;
+    use jsonrpsee_server::{HttpBody, HttpRequest, HttpResponse};
+    use std::sync::Mutex;
+    use tower::{Layer, Service, ServiceExt};
+    let seen: Arc<Mutex<Vec<(String, String, Option<String>)>>> = Default::default();
+    let s2 = seen.clone();
+    let inner = tower::service_fn(move |req: HttpRequest<HttpBody>| {
+        let s = s2.clone();
+        async move {
+            let ct = req.headers().get("content-type").and_then(|v| v.to_str().ok()).map(|v| v.to_string());
+            s.lock().unwrap().push((req.method().to_string(), req.uri().path().to_string(), ct));
+            Ok::<_, std::convert::Infallible>(HttpResponse::new(HttpBody::from(r#"{"jsonrpc":"2.0","id":0,"result":"ok"}"#)))
+        }
+    });
+    let layer = ProxyGetRequestLayer::new([("/health", "system_health")]).expect("valid path");
+    let mut svc = layer.layer(inner);
+    let rt = tokio::runtime::Builder::new_current_thread().enable_all().build().unwrap();
+    let mut why = vec![];
+    for (method, path, ct) in [("GET", "/health", None), ("PUT", "/health", Some("text/plain")), ("DELETE", "/health", None), ("POST", "/health", Some("text/plain")),
+                               ("HEAD", "/health", None), ("GET", "/other", None), ("POST", "/", Some("application/json"))] {
+        let mut b = http::Request::builder().method(method).uri(path);
+        if let Some(ct) = ct {
+            b = b.header("content-type", ct);
+        }
+        let req = b.body(HttpBody::from("the original body")).unwrap();
+        seen.lock().unwrap().clear();
+        let _ = rt.block_on(async { <_ as ServiceExt<HttpRequest<HttpBody>>>::ready(&mut svc).await.unwrap().call(req).await });
+        let got = seen.lock().unwrap().first().cloned();
+        let want = if method == "GET" && path == "/health" {
+            ("POST".to_string(), "/".to_string(), Some("application/json".to_string()))
+        } else {
+            (method.to_string(), path.to_string(), ct.map(|c| c.to_string()))
+        };
+        if got.as_ref() != Some(&want) {
+            why.push(format!("{method} {path} (content type {ct:?}) reached the inner service as {got:?}, expected {want:?}"));
+        }
+    }
+    json!({"scenario":"c19_proxy_get","observed":{},"violation":!why.is_empty(),"why":why.join(" | ")})
+}
